@@ -2562,6 +2562,20 @@ impl<'a, const HAS_CR: bool> Parser<'a, HAS_CR> {
         is_null
     }
 
+    /// Whether the next content line (past the rest of this one, blank lines
+    /// and comment lines) is a block sequence entry at exactly `indent`.
+    /// Restores `self.pos` before returning.
+    fn following_line_is_sequence_item_at(&mut self, indent: usize) -> bool {
+        let saved_pos = self.pos;
+        self.skip_to_eol();
+        self.skip_newlines();
+        let is_item = self.count_indent().is_ok_and(|n| n == indent)
+            && self.peek_at(indent) == Some(b'-')
+            && Self::is_ws_break_or_eoi(self.peek_at(indent + 1));
+        self.pos = saved_pos;
+        is_item
+    }
+
     /// Parse a compact mapping entry within a sequence item.
     /// This handles `- key: value` where the mapping is inline with the sequence item.
     fn parse_compact_mapping_entry(&mut self, indent: usize) -> Result<(), YamlError> {
@@ -3440,7 +3454,7 @@ impl<'a, const HAS_CR: bool> Parser<'a, HAS_CR> {
         self.close_deeper_indents(indent + 1);
 
         // This value is for the pending explicit key
-        self.pending_explicit_key = None;
+        let had_pending_key = self.pending_explicit_key.take().is_some();
 
         // Skip `:`
         self.advance();
@@ -3474,7 +3488,19 @@ impl<'a, const HAS_CR: bool> Parser<'a, HAS_CR> {
             // own open and tripped a spurious cycle rejection. A tag with
             // nothing after it (`? e` / `: !!str`) needs the same treatment
             // so it resolves to `""` rather than being dropped (#224).
-            if had_property && self.following_value_is_null(indent) {
+            //
+            // Without a property the value still needs its node when it is
+            // null, or the mapping is left one node short: the next entry's key
+            // is then read as this key's value and the pairing of everything
+            // after it is off by one (`? k` / `:` / `q: 1` loaded as
+            // `{"k":"q"}`), and at the end of input the entry vanished.
+            // A block sequence may sit at the indent of the `:` it is the value
+            // of, so that one shape at the same indent is not null. And a `:`
+            // that answers no `?` (an empty key, `: # both empty`) wrote no key
+            // node either; a value alone would unbalance the mapping instead.
+            let needs_null_node = had_property
+                || (had_pending_key && !self.following_line_is_sequence_item_at(indent));
+            if needs_null_node && self.following_value_is_null(indent) {
                 self.set_ib();
                 self.write_bp_open();
                 self.write_bp_close();
@@ -6747,6 +6773,30 @@ mod tests {
             result.is_ok(),
             "empty key in flow sequence should parse: {result:?}"
         );
+    }
+
+    /// `? k` / `:` with nothing after the `:` is the entry `k: null`. It wrote
+    /// no value node, so the next key became `k`'s value, and at the end of
+    /// input the entry was lost.
+    #[test]
+    fn explicit_value_indicator_with_no_value_is_null() {
+        for (yaml, expected) in [
+            (&b"? k\n:\nq: 1\n"[..], "{\"k\":null,\"q\":1}"),
+            (b"? k\n:\n", "{\"k\":null}"),
+            (b"? k\n:", "{\"k\":null}"),
+            (b"? k\n: # c\n? j\n: 2\n", "{\"k\":null,\"j\":2}"),
+            (b"- ? k\n  :\n- x\n", "[{\"k\":null},\"x\"]"),
+            (b"? k\n:\n- a\n", "{\"k\":[\"a\"]}"),
+            (b"? k\n:\n  v\n", "{\"k\":\"v\"}"),
+        ] {
+            let index = crate::yaml::YamlIndex::build(yaml).expect("should parse");
+            assert_eq!(
+                index.root(yaml).to_json_document(),
+                expected,
+                "input: {:?}",
+                core::str::from_utf8(yaml)
+            );
+        }
     }
 
     #[test]
